@@ -89,8 +89,9 @@ Mul1e6(x) == Mk(x.neg, IF x.mag = <<>> THEN <<>> ELSE <<0, 0>> \o x.mag)
 Small(x) == Len(x.mag) <= 3
 \* |x| <= 2^31 - 1: ToInt is safe (Small is the cheaper test for |x| < 10^9)
 IntSafe(x) == Len(x.mag) <= 3 \/ (Len(x.mag) = 4 /\ CmpMag(x.mag, <<647, 483, 147, 2>>) <= 0)
-ToInt(x) == LET v == Limb(x.mag, 1) + 1000 * Limb(x.mag, 2) + 1000000 * Limb(x.mag, 3) + 1000000000 * Limb(x.mag, 4)
-            IN IF x.neg THEN -v ELSE v                       \* requires |x| < 2^31
+ToInt(x) == IF x.neg /\ x.mag = <<648, 483, 147, 2>> THEN -2147483647 - 1                    \* i32::MIN: its magnitude is not a native integer
+            ELSE LET v == Limb(x.mag, 1) + 1000 * Limb(x.mag, 2) + 1000000 * Limb(x.mag, 3) + 1000000000 * Limb(x.mag, 4)
+                 IN IF x.neg THEN -v ELSE v                  \* requires -2^31 <= x < 2^31
 I64Max == Mk(FALSE, <<807, 775, 854, 36, 372, 223, 9>>)      \* 9 223 372 036 854 775 807
 I64Min == Neg(Add(I64Max, One))
 FitsI64(x) == Leq(I64Min, x) /\ Leq(x, I64Max)
